@@ -107,6 +107,7 @@ type LinkCtx struct {
 	mu        sync.Mutex
 	upAlias   map[uint32]*UpState
 	nextUp    uint32
+	freeUp    []uint32 // aliases of closed upstreams (Policy.RecycleUpAlias)
 	downs     map[uint32]*DownState
 	Connect   *message.ConnectRequest
 	ConnectT  int64
@@ -140,6 +141,8 @@ type Policy struct {
 	AckDup     bool                 // every ack is sent twice
 	AckReverse bool                 // results inside a batched ack are listed in reverse order
 	// UpAliasFromZero: upstream stream aliases are handed out from 0 instead of 1.
+	// RecycleUpAlias: the alias of a closed upstream is given to the next upstream opened on the link.
+	RecycleUpAlias  bool
 	UpAliasFromZero bool
 	Alias           AliasMode
 	AliasN          int
@@ -427,10 +430,16 @@ func (lc *LinkCtx) OpenUpstream(t *message.UpstreamOpenRequest) *message.Upstrea
 	b.ups[us.ID] = us
 	b.upOrder = append(b.upOrder, us)
 	lc.mu.Lock()
-	lc.nextUp++
-	alias := lc.nextUp
-	if b.P.UpAliasFromZero {
-		alias-- // the first upstream of a link gets stream alias 0 (a legal value)
+	var alias uint32
+	if n := len(lc.freeUp); b.P.RecycleUpAlias && n > 0 {
+		alias = lc.freeUp[n-1] // the alias of a stream that was closed on this link is handed out again at once
+		lc.freeUp = lc.freeUp[:n-1]
+	} else {
+		lc.nextUp++
+		alias = lc.nextUp
+		if b.P.UpAliasFromZero {
+			alias-- // the first upstream of a link gets stream alias 0 (a legal value)
+		}
 	}
 	lc.upAlias[alias] = us
 	lc.mu.Unlock()
@@ -644,6 +653,14 @@ func (lc *LinkCtx) CloseUpstream(t *message.UpstreamCloseRequest) *message.Upstr
 		us.CloseReq = t
 		us.CloseT = b.Clock.Now()
 		us.CloseLink = lc.L.ID
+		if a, ok := us.LinkAlias[lc.L.ID]; ok && b.P.RecycleUpAlias {
+			lc.mu.Lock()
+			if lc.upAlias[a] == us {
+				delete(lc.upAlias, a)
+				lc.freeUp = append(lc.freeUp, a)
+			}
+			lc.mu.Unlock()
+		}
 	}
 	return &message.UpstreamCloseResponse{RequestID: t.RequestID, ResultCode: message.ResultCodeSucceeded, ResultString: "OK"}
 }
